@@ -341,6 +341,8 @@ def monitor_transitions(w: World) -> tuple[str, Any] | None:
             continue
         if ctx in REARM_CTX and row["tbl"] in ("stage", "task") and new == "NOT_STARTED":
             continue  # the explicit re-arm; anything else a jump writes has to be a legal transition
+        if ctx == "RestartStage" and row["tbl"] == "workflow" and old in COMPLETE and new == "RUNNING":
+            continue  # an operator restart of a stage re-opens a finished workflow for that run
         return ("illegal_transition/%s/%s->%s@%s" % (row["tbl"], old, new, ctx or "outside"), row)
     return None
 
@@ -1108,6 +1110,18 @@ def forward_jump_run(choices: list[Any]) -> bool:
 
 
 # ----------------------------------------------------------------------------------------------- C09 redelivery
+def make_inject_restart_stage(i_sym: Any) -> Callable[[World], None]:
+    """Operator restart (Orchestrator.restart -> RestartStage) of the i-th top-level stage of the
+    workload (i symbolic)."""
+    def inj(w: World) -> None:
+        refs = sorted(r for r in w.refs if not r.startswith("syn:"))
+        ref = refs[hx.pick(i_sym, len(refs))]
+        wf = w.store.retrieve(w.workflow_id)
+        w.orchestrator.restart(wf, w.refs[ref])
+
+    return inj
+
+
 def inject_restart(w: World) -> None:
     """Worker restart without a crash in the middle of a handler: every in-memory structure
     (duplicate filter included) is rebuilt; un-acked messages stay locked until their lock lapses."""
@@ -1185,6 +1199,23 @@ def make_post_group(kind: str, members: tuple[str, ...]) -> Callable[[World, dic
         return None
 
     return post
+
+
+def post_signal_restart(w: World, snap: dict[str, Any], info: dict[str, Any]) -> tuple[str, Any] | None:
+    """One persistent signal and an operator restart of some stage: the signal is delivered to exactly
+    one execution of the suspending task (not lost by the re-arm, not delivered again after it)."""
+    sent = any(tag == 1 for tag, _ in injected_tags(info["injected"]))
+    if not sent:
+        return None
+    runs = [e for e in w.ledger.entries if e["ref"] == "w"]
+    seen = [e for e in runs if e.get("signal") == ["go", {"v": 7}]]
+    left = snap["stages"]["w"]["context"].get("_buffered_signals") or []
+    detail = {"runs_of_suspending_task": len(runs), "runs_that_saw_the_signal": len(seen), "w": snap["stages"]["w"]["status"], "workflow": snap["workflow"], "still_buffered": len(left)}
+    if len(seen) > 1:
+        return ("signal_delivered_twice", detail)
+    if not seen and not (left and snap["stages"]["w"]["status"] != "SUSPENDED"):
+        return ("signal_lost/%s" % snap["stages"]["w"]["status"], detail)
+    return None
 
 
 def post_two_signals(w: World, snap: dict[str, Any], info: dict[str, Any]) -> tuple[str, Any] | None:
@@ -1416,6 +1447,15 @@ def event_fault_run(workload: str, step_sym: Any, kind_sym: Any) -> bool:
 
                 def faulty(self: Any, *a: Any, **k: Any) -> None:
                     if armed["on"] and not armed["fired"]:
+                        if kind == 0:
+                            # "exception after the event append": only a transaction that has appended a completion
+                            # event is a completion transaction (a failure elsewhere sends CompleteStage down its
+                            # own error path, which is not the regular completion step the property speaks of)
+                            from stabilize.events.txn_scope import current_scope
+
+                            scope = current_scope()
+                            if scope is None or not any(getattr(getattr(ev, "event_type", None), "value", "") in COMPLETION_EVENTS for ev in scope.pending):
+                                return orig_mark(self, *a, **k)
                         armed["fired"] = 1
                         ev_before = len(_event_rows(w))
                         armed["events_in_txn"] = ev_before
